@@ -195,8 +195,19 @@ func c09Payload(c *Ctx, p *Prog) {
 			continue
 		}
 		// a helper of the painter (`cellText(mainc, combc)`): used by drawCell only
-		if h := p.Fn("tcell:(*tScreen)." + name); h == nil || !calledOnlyFrom(p, h, map[string]bool{"drawCell": true}, 1) {
+		h := p.Fn("tcell:(*tScreen)." + name)
+		if h == nil || !calledOnlyFrom(p, h, map[string]bool{"drawCell": true}, 1) {
 			okER = false
+			continue
+		}
+		// … which leaves the charset encoder to encodeRune (a helper that also feeds the encoder
+		// itself — a whole cell at once, say — is a second way in)
+		for _, f := range withClosures(h) {
+			for _, a := range fieldAccesses(f) {
+				if a.Field.Owner == "tcell.tScreen" && a.Field.Name == "encoder" {
+					okER = false
+				}
+			}
 		}
 	}
 	c.Check(okER, "C09-R4", "encodeRune:callers", "-", fmt.Sprintf("callers of encodeRune: %v (drawCell, or helpers only drawCell uses)", er))
